@@ -168,6 +168,15 @@ def run_case(ctx, i, rng):
 
 def _q(rng, ctx, fn, root, **kw):
     """the module-level query or, one time in four, the shortcut method of the same name on the reference itself"""
+    sel = kw.get("selection")
+    if sel is not None and hasattr(sel, "name"):
+        # every documented spelling of the selection: the enumeration member, its name, the constant exported by the package
+        form = rng.randrange(3)
+        if form == 1:
+            kw["selection"] = sel.name
+        elif form == 2 and hasattr(sdn, sel.name):
+            kw["selection"] = getattr(sdn, sel.name)
+            ctx.count("selections_spelled_by_the_package_constant")
     m = getattr(root, fn.__name__, None)
     if callable(m) and rng.random() < 0.25:
         ctx.count("queries_through_the_shortcut_method")
@@ -285,6 +294,36 @@ def check_netlist(ctx, i, rng, n, st, phase):
                     exp |= classes[uf.find(ids(s[:-2] + (ow.cable, ow)))]
         if check(ctx, phase + "hwires-from-hport:ALL", "get_hwires(hport, ALL)", _q(rng, ctx, sdn.get_hwires, hp, selection=S.ALL), exp, st):
             return None
+    # starts: the netlist's own Port / Cable objects (not references): the union over their occurrences
+    by_port, by_cable = {}, {}
+    for hp in hports:
+        by_port.setdefault(id(seq(hp)[-1]), []).append(hp)
+    for hc in hcables:
+        by_cable.setdefault(id(seq(hc)[-1]), []).append(hc)
+    for table, what in ((by_port, "port"), (by_cable, "cable")):
+        keys_ = list(table)
+        for k_ in (keys_ if len(keys_) <= 6 else rng.sample(keys_, 6)):
+            exp = set()
+            for h_ in table[k_]:
+                s = seq(h_)
+                if what == "cable":
+                    for w in s[-1].wires:
+                        exp |= classes[uf.find(ids(s + (w,)))]
+                else:
+                    inst, port = s[-2], s[-1]
+                    for pin in port.pins:
+                        iw = pin.wire
+                        if iw is not None and iw.cable is not None:
+                            exp |= classes[uf.find(ids(s[:-1] + (iw.cable, iw)))]
+                        if len(s) > 2:
+                            ow = inst.pins[pin].wire
+                            if ow is not None and ow.cable is not None:
+                                exp |= classes[uf.find(ids(s[:-2] + (ow.cable, ow)))]
+            elem = seq(table[k_][0])[-1]
+            ctx.count("starts_element_%s" % what)
+            if check(ctx, phase + "hwires-from-%s-element:ALL" % what, "get_hwires(%s object, ALL)" % what,
+                     _q(rng, ctx, sdn.get_hwires, elem, selection=S.ALL), exp, st):
+                return None
     # every member of a class gives the same ALL answer (follows from the above when all starts are checked)
     ctx.count("net_classes", len(classes))
     return ((st, sorted(len(c) for c in classes.values())), spans and only_inst,
